@@ -187,6 +187,10 @@ class G:
                     paths.append((top.name, top, id(top)))
                 elif top.name and top.kind == 'agg':
                     paths += [(top.name + '.' + p, m, id(top)) for p, m in top.agg.paths() if m.kind in ('scalar', 'bitfield') and m.name]
+            if not self.static:
+                # automatic objects are read back member by member: only paths that reach the first member of every union they cross
+                ok = set(acc.split('.', 1)[1] for acc, _ in leaves(a, 'x') if '.' in acc)
+                paths = [x for x in paths if x[0] in ok]
             if not paths:
                 return '{ %s }' % self.member(ms[0], depth)
             seenroot = set()
